@@ -671,3 +671,288 @@ Proof.
     destruct (tail p); [discriminate | assumption]. }
   rewrite exec_seq_step. destruct (fst (exec_prog sc flag p s)); simpl; try assumption; rewrite IH; assumption.
 Qed.
+
+(* ================================================================== the generated programs (Gen/GitCfg.v) *)
+Lemma all_commands_complete c : In c all_commands.
+Proof. destruct c as [[] [] [] []|[] []]; vm_compute; repeat (first [left; reflexivity | right]). Qed.
+Lemma for_all_commands (P : command -> bool) : forallb P all_commands = true -> forall c, P c = true.
+Proof. intros H c. rewrite forallb_forall in H. apply H. apply all_commands_complete. Qed.
+Lemma exit_ok_iff o : exit_ok o = true <-> fst o <> Raised.
+Proof. unfold exit_ok. destruct (fst o); split; intros; try reflexivity; try discriminate; contradiction. Qed.
+
+(* ---- enable: idempotent *)
+Definition chk_enable (c : command) : bool := implb (is_enable c) (enable_ok (flag_of tbl c) (progs_of tbl c)).
+Lemma chk_enable_all : forallb chk_enable all_commands = true.
+Proof. vm_compute. reflexivity. Qed.
+Lemma enable_ok_gen c : is_enable c = true -> enable_ok (flag_of tbl c) (progs_of tbl c) = true.
+Proof. intros H. pose proof (for_all_commands _ chk_enable_all c) as X. unfold chk_enable in X. rewrite H in X. exact X. Qed.
+
+Lemma enable_idempotent_gen : forall c s, is_enable c = true ->
+  let o1 := run tbl c s in
+  let o2 := run tbl c (final o1) in
+  exit_ok o1 = true /\ exit_ok o2 = true /\
+  (forall sc k, get (cfg_of sc (final o2)) k = get (cfg_of sc (final o1)) k) /\
+  (forall sc, att_of sc (final o2) = att_of sc (final o1)).
+Proof.
+  intros c s H. pose proof (enable_idem_sound (scope_of c) (flag_of tbl c) (progs_of tbl c) s (enable_ok_gen c H)) as X.
+  simpl in X. destruct X as [X1 [X2 [X3 X4]]]. unfold run, final. simpl.
+  split; [apply exit_ok_iff; assumption|]. split; [apply exit_ok_iff; assumption|]. split; assumption.
+Qed.
+
+(* ---- enable: what it establishes *)
+Definition has_set (c : command) (k : key) : bool := mem_key k (map fst (allsets (flag_of tbl c) (progs_of tbl c))).
+Definition chk_establishes (c : command) : bool :=
+  implb (is_enable c)
+    (forallb (fun t => match driver_section t, driver_needle t with
+                       | Some x, Some n =>
+                         existsb (fun kv => str_eqb (fst (fst kv)) x) (allsets (flag_of tbl c) (progs_of tbl c))
+                         && existsb (fun nl => str_eqb (fst nl) n) (alltails (progs_of tbl c))
+                       | _, _ => true
+                       end) (spec_tools c)).
+Lemma chk_establishes_all : forallb chk_establishes all_commands = true.
+Proof. vm_compute. reflexivity. Qed.
+
+(* after enabling, each driver of the command has an entry in its section and its attribute is named in the file *)
+Lemma enable_establishes_gen : forall c s t x n, is_enable c = true -> In t (spec_tools c) ->
+  driver_section t = Some x -> driver_needle t = Some n ->
+  let s' := final (run tbl c s) in
+  has_sec (cfg_of (scope_of c) s') x = true /\
+  exists txt, att_of (scope_of c) s' = Some txt /\ contains n txt = true.
+Proof.
+  intros c s t x n H It Hx Hn. simpl.
+  pose proof (for_all_commands _ chk_establishes_all c) as X. unfold chk_establishes in X. rewrite H in X. simpl in X.
+  rewrite forallb_forall in X. specialize (X t It). rewrite Hx, Hn in X. apply andb_true_iff in X. destruct X as [X1 X2].
+  destruct (enable_establishes_sound (scope_of c) (flag_of tbl c) (progs_of tbl c) s (enable_ok_gen c H)) as [E1 E2].
+  unfold run, final. split.
+  - apply existsb_exists in X1. destruct X1 as [[k v] [I E]]. simpl in E. specialize (E1 k v I).
+    destruct (has_sec (cfg_of (scope_of c) (snd (exec_seq (scope_of c) (flag_of tbl c) (progs_of tbl c) s))) x) eqn:HS; [reflexivity|].
+    apply str_eqb_eq in E. rewrite (has_sec_false_get _ _ _ HS E) in E1. discriminate.
+  - apply existsb_exists in X2. destruct X2 as [nl [I E]]. apply str_eqb_eq in E. subst n. apply E2. assumption.
+Qed.
+
+(* ---- enable: footprint *)
+Definition chk_writes (c : command) : bool :=
+  implb (is_enable c)
+    (forallb (fun kv => allowed_enable_write c (fst kv) (snd kv)) (allsets (flag_of tbl c) (progs_of tbl c))).
+Lemma chk_writes_all : forallb chk_writes all_commands = true.
+Proof. vm_compute. reflexivity. Qed.
+
+Definition rule_line_b (needle l : pystr) : bool :=
+  match l with
+  | c :: r => N.eqb c LF &&
+              match rev r with
+              | d :: m => N.eqb d LF && negb (existsb (N.eqb LF) m) && contains needle (rev m)
+              | [] => false
+              end
+  | [] => false
+  end.
+Lemma rule_line_b_sound n l : rule_line_b n l = true -> rule_line n l.
+Proof.
+  unfold rule_line_b, rule_line. destruct l as [|c r]; [discriminate|]. intros H.
+  apply andb_true_iff in H. destruct H as [Hc H]. apply N.eqb_eq in Hc. subst c.
+  destruct (rev r) as [|d m] eqn:R; [discriminate|].
+  apply andb_true_iff in H. destruct H as [H Hn]. apply andb_true_iff in H. destruct H as [Hd Hm].
+  apply N.eqb_eq in Hd. subst d. exists (rev m). split; [|split].
+  - f_equal. rewrite <- (rev_involutive r), R. reflexivity.
+  - intros I. apply in_rev in I. apply negb_true_iff in Hm.
+    assert (existsb (N.eqb LF) m = true) as Y by (apply existsb_exists; exists LF; split; [assumption | apply N.eqb_refl]).
+    congruence.
+  - assumption.
+Qed.
+Definition driver_rule (t : tool) (l : pystr) : Prop := exists n, driver_needle t = Some n /\ rule_line n l.
+Definition driver_rule_b (t : tool) (l : pystr) : bool :=
+  match driver_needle t with Some n => rule_line_b n l | None => false end.
+Fixpoint forall2b {A B} (f : A -> B -> bool) (a : list A) (b : list B) : bool :=
+  match a, b with
+  | [], [] => true
+  | x :: a', y :: b' => f x y && forall2b f a' b'
+  | _, _ => false
+  end.
+Lemma forall2b_sound {A B} (f : A -> B -> bool) (P : A -> B -> Prop) :
+  (forall x y, f x y = true -> P x y) -> forall a b, forall2b f a b = true -> Forall2 P a b.
+Proof.
+  intros H a. induction a as [|x a IH]; intros [|y b] E; simpl in E; try discriminate; constructor.
+  - apply H. apply andb_true_iff in E. tauto.
+  - apply IH. apply andb_true_iff in E. tauto.
+Qed.
+Definition spec_drivers (c : command) : list tool :=
+  filter (fun t => match driver_needle t with Some _ => true | None => false end) (spec_tools c).
+Definition enable_lines (c : command) : list pystr := map snd (alltails (progs_of tbl c)).
+Definition chk_lines (c : command) : bool :=
+  implb (is_enable c) (forall2b driver_rule_b (spec_drivers c) (enable_lines c)).
+Lemma chk_lines_all : forallb chk_lines all_commands = true.
+Proof. vm_compute. reflexivity. Qed.
+Lemma enable_lines_gen c : is_enable c = true -> Forall2 driver_rule (spec_drivers c) (enable_lines c).
+Proof.
+  intros H. pose proof (for_all_commands _ chk_lines_all c) as X. unfold chk_lines in X. rewrite H in X. simpl in X.
+  revert X. apply forall2b_sound. intros t l. unfold driver_rule_b, driver_rule.
+  destruct (driver_needle t) as [n|]; [|discriminate]. intros E. exists n. split; [reflexivity | apply rule_line_b_sound; assumption].
+Qed.
+Lemma sublist_map {A B} (f : A -> B) (a b : list A) : sublist a b -> sublist (map f a) (map f b).
+Proof. induction 1; simpl; constructor; assumption. Qed.
+
+Lemma enable_footprint_gen : forall c s, is_enable c = true ->
+  let s' := final (run tbl c s) in
+  (forall sc k, get (cfg_of sc s') k <> get (cfg_of sc s) k ->
+     sc = scope_of c /\ exists v, get (cfg_of sc s') k = Some v /\ allowed_enable_write c k v = true) /\
+  (forall sc, sc <> scope_of c -> att_of sc s' = att_of sc s) /\
+  (exists rules app, Forall2 driver_rule (spec_drivers c) rules /\ sublist app rules /\
+                     att_of (scope_of c) s' = grow (att_of (scope_of c) s) app).
+Proof.
+  intros c s H. simpl.
+  pose proof (enable_ok_gen c H) as OK. unfold enable_ok in OK.
+  apply andb_true_iff in OK. destruct OK as [OK _]. apply andb_true_iff in OK. destruct OK as [HS HF].
+  destruct (enable_footprint_sound (scope_of c) (flag_of tbl c) (progs_of tbl c) s HS HF) as [F1 [F2 F3]].
+  unfold run, final. split; [|split].
+  - intros sc k NE. destruct (F1 sc k) as [E|[E [v [I G]]]]; [contradiction|].
+    split; [assumption|]. exists v. split; [assumption|].
+    pose proof (for_all_commands _ chk_writes_all c) as X. unfold chk_writes in X. rewrite H in X. simpl in X.
+    rewrite forallb_forall in X. apply (X (k, v)). assumption.
+  - intros sc NE. apply F2. assumption.
+  - destruct F3 as [ch [S E]]. exists (enable_lines c), (map snd ch).
+    split; [apply enable_lines_gen; assumption|]. split; [apply sublist_map; assumption | assumption].
+Qed.
+
+(* every line that was in an attributes file is still there, unchanged and in the same order *)
+Lemma sublist_Forall {A} (P : A -> Prop) (a b : list A) : sublist a b -> Forall P b -> Forall P a.
+Proof.
+  induction 1; intros F; [constructor | |]; inversion F; subst; auto.
+Qed.
+Lemma grow_keeps_lines a app : Forall (fun l => exists r, l = LF :: r) app ->
+  is_prefix (lines (text_of a)) (lines (text_of (grow a app))).
+Proof.
+  intros F. destruct app as [|l app]; simpl.
+  - exists []. rewrite app_nil_r. reflexivity.
+  - inversion F as [|? ? [r ->] ?]; subst. simpl. apply lines_kept.
+Qed.
+Lemma enable_keeps_lines_gen : forall c s sc, is_enable c = true ->
+  is_prefix (lines (text_of (att_of sc s))) (lines (text_of (att_of sc (final (run tbl c s))))).
+Proof.
+  intros c s sc H. destruct (enable_footprint_gen c s H) as [_ [F2 [rules [app [R [S E]]]]]].
+  destruct (scope_dec sc (scope_of c)) as [->|NE].
+  - rewrite E. apply grow_keeps_lines. apply (sublist_Forall _ _ _ S).
+    clear -R. induction R as [|t l ts ls [n [_ [rule [-> _]]]] _ IH]; constructor; [eexists; reflexivity | assumption].
+  - rewrite (F2 sc NE). exists []. rewrite app_nil_r. reflexivity.
+Qed.
+
+(* ---- disable: drivers removed *)
+Definition chk_clears (c : command) : bool :=
+  implb (negb (is_enable c))
+    (forallb (fun t => match driver_section t with
+                       | Some x => clears_seq x (progs_of tbl c)
+                       | None => true
+                       end) (spec_tools c)).
+Lemma chk_clears_all : forallb chk_clears all_commands = true.
+Proof. vm_compute. reflexivity. Qed.
+Lemma disable_removes_drivers_gen : forall c s t x, is_enable c = false -> In t (spec_tools c) ->
+  driver_section t = Some x ->
+  let s' := final (run tbl c s) in
+  has_sec (cfg_of (scope_of c) s') x = false /\ (forall k, fst k = x -> get (cfg_of (scope_of c) s') k = None).
+Proof.
+  intros c s t x H It Hx. simpl.
+  pose proof (for_all_commands _ chk_clears_all c) as X. unfold chk_clears in X. rewrite H in X. simpl in X.
+  rewrite forallb_forall in X. specialize (X t It). rewrite Hx in X.
+  pose proof (clears_seq_sound x (scope_of c) (flag_of tbl c) (progs_of tbl c) s X) as C. unfold clear in C.
+  unfold run, final. split; [assumption|]. intros k E. apply has_sec_false_get with (x := x); assumption.
+Qed.
+
+(* ---- disable: foreign settings kept *)
+Definition no_exempt (k : key) : bool := false.
+Definition chk_foreign (ex : key -> bool) (c : command) : bool :=
+  implb (negb (is_enable c)) (disable_safe ex (progs_of tbl c) && no_tails (progs_of tbl c)).
+Lemma disable_preserves_foreign_ex (ex : key -> bool) : forallb (chk_foreign ex) all_commands = true ->
+  forall c s sc k, is_enable c = false ->
+  let s' := final (run tbl c s) in
+  (protected k = true -> ex k = false -> get (cfg_of sc s) k <> Some nbdime_value ->
+     get (cfg_of sc s') k = get (cfg_of sc s) k) /\
+  att_of sc s' = att_of sc s.
+Proof.
+  intros A c s sc k H. simpl.
+  pose proof (for_all_commands _ A c) as X. unfold chk_foreign in X. rewrite H in X. simpl in X.
+  apply andb_true_iff in X. destruct X as [X1 X2]. unfold run, final. split.
+  - intros P E N.
+    destruct (disable_foreign_sound ex (scope_of c) (flag_of tbl c) (progs_of tbl c) s X1 sc k) as [Q|Q]; [assumption|].
+    unfold protected in P. apply andb_true_iff in P. destruct P as [P1 P2].
+    apply negb_true_iff in P1. apply negb_true_iff in P2.
+    destruct Q as [Q|[Q|[Q|Q]]]; congruence.
+  - apply exec_seq_att. assumption.
+Qed.
+
+(* the whole claim, available once every disable() guards what it unsets (compiles on any tree) *)
+Lemma disable_preserves_foreign_if : forallb (chk_foreign no_exempt) all_commands = true ->
+  forall c s sc k, is_enable c = false ->
+  let s' := final (run tbl c s) in
+  (protected k = true -> get (cfg_of sc s) k <> Some nbdime_value -> get (cfg_of sc s') k = get (cfg_of sc s) k) /\
+  att_of sc s' = att_of sc s.
+Proof.
+  intros A c s sc k H. destruct (disable_preserves_foreign_ex no_exempt A c s sc k H) as [X Y].
+  split; [|assumption]. intros P N. apply X; auto.
+Qed.
+
+(* ---- the state of the code with respect to finding F10 (mergetool.disable unsets merge.tool unguarded).
+   Everything below compiles whether or not the defect is present; Props/C18.v picks the side that holds. *)
+Definition merge_tool_key : key := (asc "merge", asc "tool").
+Definition exempt_merge_tool (k : key) : bool := key_eqb k merge_tool_key.
+Definition all_disable_guarded : bool := forallb (chk_foreign no_exempt) all_commands.
+
+Lemma chk_foreign_except_merge_tool : forallb (chk_foreign exempt_merge_tool) all_commands = true.
+Proof. vm_compute. reflexivity. Qed.
+Lemma disable_preserves_foreign_except_merge_tool_gen : forall c s sc k, is_enable c = false ->
+  let s' := final (run tbl c s) in
+  (protected k = true -> k <> merge_tool_key -> get (cfg_of sc s) k <> Some nbdime_value ->
+     get (cfg_of sc s') k = get (cfg_of sc s) k) /\
+  att_of sc s' = att_of sc s.
+Proof.
+  intros c s sc k H. destruct (disable_preserves_foreign_ex exempt_merge_tool chk_foreign_except_merge_tool c s sc k H) as [X Y].
+  split; [|assumption]. intros P N V. apply X; auto. apply key_eqb_neq. assumption.
+Qed.
+
+Definition disable_preserves_foreign_statement : Prop :=
+  forall c s sc k, is_enable c = false ->
+  let s' := final (run tbl c s) in
+  (protected k = true -> get (cfg_of sc s) k <> Some nbdime_value -> get (cfg_of sc s') k = get (cfg_of sc s) k) /\
+  att_of sc s' = att_of sc s.
+Definition mergetool_disable_refuted_statement : Prop :=
+  exists s v, protected merge_tool_key = true /\ v <> nbdime_value /\
+              get (cfg_of Local s) merge_tool_key = Some v /\
+              get (cfg_of Local (final (run tbl (One MergeTool false Local false) s))) merge_tool_key = None.
+Definition f10_witness : state := mkState [(merge_tool_key, asc "meld")] [] None None.
+
+Lemma disable_foreign_verdict_pos : if all_disable_guarded then disable_preserves_foreign_statement else True.
+Proof.
+  destruct all_disable_guarded eqn:E; [|exact I].
+  unfold disable_preserves_foreign_statement. apply disable_preserves_foreign_if. exact E.
+Qed.
+Lemma disable_foreign_verdict_neg : if all_disable_guarded then True else mergetool_disable_refuted_statement.
+Proof.
+  first [ exact I
+        | exists f10_witness, (asc "meld"); vm_compute; repeat split; try reflexivity; discriminate ].
+Qed.
+
+(* ---- the hypotheses of the theorems can be met, and the conclusions are not trivial *)
+Definition empty_state : state := mkState [] [] None None.
+Example enable_does_something :
+  has_sec (cfgL (final (run tbl (All true Local) empty_state))) (asc "diff.jupyternotebook") = true /\
+  has_sec (cfgL (final (run tbl (All true Local) empty_state))) (asc "merge.jupyternotebook") = true /\
+  attL (final (run tbl (All true Local) empty_state)) <> None.
+Proof. vm_compute. repeat split; discriminate. Qed.
+Example disable_undoes_enable :
+  let s1 := final (run tbl (All true Global) empty_state) in
+  has_sec (cfgG s1) (asc "diff.jupyternotebook") = true /\
+  has_sec (cfgG (final (run tbl (All false Global) s1))) (asc "diff.jupyternotebook") = false.
+Proof. vm_compute. split; reflexivity. Qed.
+Example foreign_guitool_survives :
+  let k := (asc "diff", asc "guitool") in
+  let s := mkState [(k, asc "meld")] [] None None in
+  protected k = true /\ get (cfgL s) k <> Some nbdime_value /\
+  get (cfgL (final (run tbl (All false Local) s))) k = Some (asc "meld").
+Proof. vm_compute. repeat split; discriminate. Qed.
+Example own_guitool_is_unset :
+  let k := (asc "diff", asc "guitool") in
+  let s := mkState [(k, nbdime_value)] [] None None in
+  get (cfgL (final (run tbl (One DiffTool false Local false) s))) k = None.
+Proof. vm_compute. reflexivity. Qed.
+Example set_default_is_honoured :
+  get (cfgL (final (run tbl (One MergeTool true Local true) empty_state))) merge_tool_key = Some nbdime_value /\
+  get (cfgL (final (run tbl (One MergeTool true Local false) empty_state))) merge_tool_key = None.
+Proof. vm_compute. split; reflexivity. Qed.
